@@ -82,6 +82,10 @@ def run_c16(tier, seed):
             add([[("SET", [b"e", b""]), ("GET", [b"e"]), ("SETNX", [b"e", b"%d" % i])] for i in range(n)], "%d clients SET the empty value / GET / SETNX" % n)
             add([[("GETSET", [b"ge", b"" if i % 2 else b"%d" % i])] * 2 for i in range(n)], "%d clients x 2 GETSET chain with empty values" % n)
             add([[("MSET", [b"p", b"", b"q", b"%d" % i]), ("MGET", [b"p", b"q"])] for i in range(n)], "%d clients MSET an empty and a non-empty value, MGET" % n)
+        if n <= 4:
+            # the same write twice in a row by one client while others write the key: the second one counts like the first
+            add([[("SET", [b"r", b"%d" % i]), ("SET", [b"r", b"%d" % i]), ("GET", [b"r"])] for i in range(n)], "%d clients x (SET r v ; SET r v ; GET r)" % n)
+            add([[("SET", [b"rc", b"10"]), ("SET", [b"rc", b"10"]), ("INCR", [b"rc"])] for i in range(n)], "%d clients x (SET rc 10 ; SET rc 10 ; INCR rc)" % n)
     reps = 40 if tier == "quick" else 400
     cases = cases * reps
     # arguments larger than the usual I/O buffers (parsed outside the command lock): what a GET returns was written by somebody
